@@ -17,9 +17,19 @@ EXPLANATION = ('Kernel of C06. CBMC\'s automatic obligations (container precondi
                'are the property\'s "never by a memory-safety/undefined-behaviour fault", and the decreases clauses of the loop contracts its "terminates", for every byte '
                'vector / code-point sequence of any length: all decoders of src/unicode.cpp and the white-space primitives of the tokenizer, with progress contracts '
                '(true => cursor advanced, false => cursor restored exactly). Malformed UTF-8/UTF-16 is refused.')
-K = ['K1 unicode.cpp decoders: safe and terminating for any length; |out| <= |in|', 'K2 tokenizer white-space primitives: safe, terminating, progress/restore']
+K = ['K4 uncrustify_file: output_text exactly once and last; an embedded NUL exits before uncrustify_start', 'K1 unicode.cpp decoders: safe and terminating for any length; |out| <= |in|', 'K2 tokenizer white-space primitives: safe, terminating, progress/restore']
 G = ['tokenize() main loop terminates given progress of parse_next: parse_next\'s progress contract is proved only for the leaf callees listed here; for parse_number, parse_string, parse_word, parse_comment, ... it is an ASSUMED contract',
-     'uncrustify_file typestate (output_text last, no exit after output, embedded-NUL scan): not yet under contract',
+     'after output_text only the optional -p dump can still exit non-zero (its fopen is assumed to succeed: environment faults are C13\'s quantifier)',
      'brace_cleanup, combine, indent and the three hangs quoted in the property live in passes outside the kernel: NOT covered',
      'int <-> size_t conversions of code points in the tokenizer are implementation-defined, not undefined (conversion check off there)',
      'inputs smaller than 2^26 code points (column arithmetic proved for columns < 2^32)']
+
+
+def proofs(tier, workroot):
+    """static list + the driver proof (uncrustify_file: shared with C04; its pass stubs are generated per run)"""
+    import importlib.util
+    here = os.path.dirname(os.path.abspath(__file__))
+    sp = importlib.util.spec_from_file_location('c04proofs', os.path.join(here, '..', 'C04', 'proofs.py'))
+    c04 = importlib.util.module_from_spec(sp)
+    sp.loader.exec_module(c04)
+    return list(PROOFS) + c04.proofs(tier, workroot)
